@@ -49,9 +49,13 @@ def physics(ctx, rng, k):
                      **({"custom_buffer_time": gen.pick(rng, [40, 240])} if rng.random() < 0.4 else {}))
     ch = pulser.channels.Rydberg.Global(None, None, mod_bandwidth=bw, eom_config=eom, clock_period=gen.pick(rng, [1, 4]),
                                         min_duration=gen.pick(rng, [1, 16]), max_duration=None)
-    dev = pulser.devices.VirtualDevice(name="eomdev", dimensions=2, rydberg_level=60, channel_objects=(ch,))
+    other = pulser.channels.Raman.Global(None, None, clock_period=1, min_duration=1, max_duration=None)
+    dev = pulser.devices.VirtualDevice(name="eomdev", dimensions=2, rydberg_level=60, channel_objects=(ch, other))
     seq = pulser.Sequence(pulser.Register({"q": (0.0, 0.0)}), dev)
     seq.declare_channel("c", "rydberg_global")
+    if rng.random() < 0.5:  # an idle channel that is (much) longer than the EOM channel
+        seq.declare_channel("idle", "raman_global")
+        seq.delay(gen.pick(rng, [1000, 3000, 5000]), "idle")
     req = []  # requested phases of the real pulses, in order
     ops = []
     if rng.random() < 0.5:
